@@ -1,20 +1,20 @@
 SPECIFICATION MCSpec
 CONSTANTS
     BufCap = 3
-    Ls = {0, 3}
-    Ns = {0, 1, 2, 3}
-    Opts = {0, 1, 2, 4, 7}
-    Sizes = {1, 2, 4}
-    MaxSends = 4
+    Ls = {3}
+    Ns = {0, 2, 3}
+    Opts = {0, 2, 4}
+    Sizes = {2}
+    MaxSends = 5
     MaxDay = 1
     MaxRestarts = 1
     MaxCrash = 0
     MaxFault = 0
     MaxGzWrites = 1
-    Ticks = FALSE
-    Fatal = TRUE
+    Ticks = TRUE
+    Fatal = FALSE
     FlushOnFatal = TRUE
-    ZoneBack = FALSE
+    ZoneBack = TRUE
     ZoneTies = FALSE
 INVARIANT TypeOK
 INVARIANT ReadBackIsHistory
